@@ -34,11 +34,21 @@ func main() {
 	hashes := map[string]string{}
 	changed := []string{}
 	sort.Slice(generators, func(i, j int) bool { return generators[i].name < generators[j].name })
+	failed := map[string]string{}
 	for _, g := range generators {
 		text, err := g.fn(*repo)
 		if err != nil {
-			fmt.Fprintf(os.Stderr, "pins: %s: %v\n", g.name, err)
-			os.Exit(1)
+			// The source no longer has the shape this generator reads. Do not stop the other
+			// generators (they serve other properties): fall back to the committed baseline of this
+			// file, so that the model can still run and search for a failing input, and report the
+			// failure; the check marks every theorem that depends on this file as not discharged.
+			failed[g.name] = err.Error()
+			base, berr := os.ReadFile(filepath.Join(*out, "..", "GenBaseline", g.name+".txt"))
+			if berr != nil {
+				fmt.Fprintf(os.Stderr, "pins: %s: %v (no baseline: %v)\n", g.name, err, berr)
+				continue
+			}
+			text = string(base)
 		}
 		p := filepath.Join(*out, g.name)
 		old, _ := os.ReadFile(p)
@@ -52,6 +62,7 @@ func main() {
 		h := sha1.Sum([]byte(text))
 		hashes[g.name] = hex.EncodeToString(h[:])[:12]
 	}
+	info["failed"] = failed
 	info["gen_hashes"] = hashes
 	info["rewritten"] = changed
 	info["fingerprints"] = fingerprints(*repo)
